@@ -134,6 +134,8 @@ func (b *Builder) Handler(hs *HSpec, sig string) layer4.NextHandler {
 	switch hs.Kind {
 	case "consume", "mark":
 		return &worlds.Consume{E: b.E, Name: hs.Name, K: hs.K, Tag: b.Tag, Sig: sig}
+	case "vmark":
+		return &worlds.Consume{E: b.E, Name: hs.Name, K: 0, Tag: b.Tag, Sig: sig, Visible: true, Hist: b.Hist}
 	case "ppmark":
 		return &worlds.Consume{E: b.E, Name: hs.Name, K: 0, Tag: b.Tag, Sig: sig, StripPre: true}
 	case "recorder":
@@ -209,7 +211,7 @@ func (rl *RLSpec) Kinds() string {
 	walkH = func(hs []HSpec) {
 		for i := range hs {
 			h := &hs[i]
-			if h.Kind != "consume" && h.Kind != "mark" && h.Kind != "recorder" && h.Kind != "ppmark" {
+			if h.Kind != "consume" && h.Kind != "mark" && h.Kind != "recorder" && h.Kind != "ppmark" && h.Kind != "vmark" {
 				set[h.Kind] = true
 			}
 			if h.Sub != nil {
